@@ -213,7 +213,9 @@ class _CommonFile:
                     "username occurs multiple times in source file: %r",
                     key,
                 )
-                skipped += line
+                # NOTE: the duplicate is dropped rather than preserved as text:
+                #       kept verbatim it would shadow-survive delete() of the user
+                #       (and become the active entry once the first one is removed).
                 continue
 
             # flush buffer of skipped whitespace lines
